@@ -46,9 +46,9 @@ CLOSE_SLACK_S = 3.0  # close() must return within (sleep still owed by scripted 
 MAX_TIMED = 4        # timed calls per scenario (keeps Σ timeouts well below SLEEP_S)
 
 CMDS = ["reset", "step", "call", "set_attr"]
-EXC_NAMES = ["ValueError", "KeyError", "RuntimeError", "ZeroDivisionError", "CustomFault"]
+EXC_NAMES = ["ValueError", "RuntimeError", "ZeroDivisionError", "CustomFault", "IndexError"]
 PROTOCOL_ERRORS = {"AlreadyPendingCallError", "NoAsyncCallError", "ClosedEnvironmentError",
-                   "mp.TimeoutError", "EOFError", "BrokenPipeError", "AttributeError"}
+                   "mp.TimeoutError", "EOFError", "BrokenPipeError", "AttributeError", "KeyError", "TypeError"}
 ASYNC_OF = {"reset_async": ("reset", "reset"), "step_async": ("step", "step"), "call_async": ("call", "call")}
 WAIT_OF = {"reset_wait": "reset", "step_wait": "step", "call_wait": "call"}
 
@@ -634,7 +634,7 @@ def gen_thorough(rng) -> list[dict]:
                 scns.append({"n": n, "script": [f], "ops": pre + [[cmd + "_async"], ["close"] + ck, ["close", 0, 0]]})
     # pairs of faults in different workers at the same or neighbouring commands
     tries = 0
-    target = len(scns) + 160
+    target = len(scns) + 400
     while len(scns) < target and tries < 4000:
         tries += 1
         n = rng.choice([2, 3, 4])
@@ -796,7 +796,7 @@ def selftest(chk: Check, pool: Pool) -> None:
         ("close_leaks", "close() closes the pipes but neither stops nor joins the workers",
          {"n": 2, "script": [[0, "step", 0, "sleep", None]], "ops": [["step_async"], ["step_wait", 1], ["close", 0, 0]]}),
         ("swallow_worker_error", "_raise_if_errors drops the sub-environment's exception",
-         {"n": 2, "script": [[1, "step", 0, "raise", "KeyError"]], "ops": [["step_async"], ["step_wait", 0], ["close", 0, 0]]}),
+         {"n": 2, "script": [[1, "step", 0, "raise", "ValueError"]], "ops": [["step_async"], ["step_wait", 0], ["close", 0, 0]]}),
         ("timeout_keeps_state", "timed waits ignore the timeout",
          {"n": 2, "script": [[1, "call", 0, "sleep", None]], "ops": [["call_async"], ["call_wait", 1], ["close", 0, 0]]}),
     ]
